@@ -193,7 +193,18 @@ func runHeaders(t *testing.T, rc *core.RunCtx) {
 		}
 		displaced := n - at
 		var l int
-		switch tp.Intn(4) {
+		nearTie := 0
+		lsel := tp.Intn(4)
+		if !params.PoWNoRetargeting && tp.Chance(1, 3) {
+			// where difficulty varies, "longer" and "heavier" come apart:
+			// cut the fork where its work just passes (or just fails to
+			// pass) the main chain's
+			lsel = 4
+		}
+		switch lsel {
+		case 4:
+			l = displaced + 8
+			nearTie = 1 + tp.Intn(2) // 1 just heavier, 2 just not heavier
 		case 0:
 			l = displaced // exactly as many headers (equal work unless difficulty changes)
 		case 1:
@@ -204,7 +215,7 @@ func runHeaders(t *testing.T, rc *core.RunCtx) {
 			l = 1 + tp.Intn(displaced+4)
 		}
 		breakAt, rule := 0, ""
-		if !adopt && tp.Chance(2, 5) {
+		if !adopt && nearTie == 0 && tp.Chance(2, 5) {
 			breakAt = 1 + tp.Intn(l)
 			rule = w.pickRule(int32(at + breakAt))
 			if rule == "bits-noclamp" && !params.PoWNoRetargeting {
@@ -226,6 +237,19 @@ func runHeaders(t *testing.T, rc *core.RunCtx) {
 		// mineChain clamps to MTP+1 when needed.
 		end := tipTime.Add(time.Duration(tp.Intn(20)) * time.Minute)
 		ft := w.mineChain(mainChain[at], l, fsp, end, breakAt, rule, &plan.salt, 0)
+		if nearTie > 0 && breakAt == 0 {
+			fc := ft.Chain()
+			for hgt := at + 1; hgt < len(fc); hgt++ {
+				if fc[hgt].CumWork.Cmp(plan.main.CumWork) > 0 {
+					ft = fc[hgt]
+					if nearTie == 2 && hgt-1 > at {
+						ft = fc[hgt-1]
+					}
+					break
+				}
+			}
+			rc.Probe("near_tie_fork")
+		}
 		plan.forks = append(plan.forks, ft)
 		rc.Logf("fork %d: at %d len %d broken=%q@%d work-vs-main=%d", i, at, l, rule, breakAt, ft.CumWork.Cmp(plan.main.CumWork))
 	}
